@@ -132,6 +132,9 @@ func (bA *BitArray) Or(o *BitArray) *BitArray {
 	defer bA.mtx.Unlock()
 	c := bA.copyBits(MaxInt(int(bA.Bits), int(o.Bits)))
 	for i := 0; i < len(c.Elems); i++ {
+		if i >= len(o.Elems) {
+			break // o is shorter (or empty): only its own words are or-ed in
+		}
 		c.Elems[i] |= o.Elems[i]
 	}
 	return c
